@@ -544,13 +544,18 @@ const handRuleSDL = `
 directive @rep repeatable on FIELD
 directive @once on FIELD
 directive @fd(x: Int) on FRAGMENT_DEFINITION | FIELD
-type Query { f(i: Int, l: [Int], ll: [[Int]], lln: [[Int]!], o: In, req: Int! = 5, nn: Int!): Int g(lnn: [Int!]!): Int  a: A  b: B  u: U  i: I  s: String  e(v: E): E any(x: Any): Any one(x: One): Int num(fl: Float, id: ID, fls: [Float], o: Num): Int cc: C lo(os: [In!], oo: In2, ooo: [[In2]]): Int }
+type Query { f(i: Int, l: [Int], ll: [[Int]], lln: [[Int]!], o: In, req: Int! = 5, nn: Int!): Int g(lnn: [Int!]!): Int  a: A  b: B  u: U  i: I  s: String  e(v: E): E any(x: Any): Any one(x: One): Int num(fl: Float, id: ID, fls: [Float], o: Num): Int cc: C lo(os: [In!], oo: In2, ooo: [[In2]]): Int anyn(x: Any!, l: [Any!], o: AnyIn): Int }
 interface I { x: Int }
 type A implements I { x: Int  z: Int  o: B  li: [Int]  lin: [Int]!  n: Int!  p: C }
 type B implements I { x: Int y: Int  z: String li: [Int]!  o: Int n: Int  p: C }
 type C { c: Int d: Int j(a: Int): Int }
 input Num { fl: Float id: ID }
 input In2 { inner: [In] one: In }
+input AnyIn { from: Any! to: Any }
+directive @opd(x: Int, b: Boolean) on QUERY | MUTATION | SUBSCRIPTION | FRAGMENT_DEFINITION | FRAGMENT_SPREAD | INLINE_FRAGMENT | VARIABLE_DEFINITION | FIELD
+directive @tag on FIELD
+directive @note on FIELD
+directive @mark on FIELD
 union U = A | B
 enum E { RED GREEN }
 scalar Any
@@ -561,6 +566,15 @@ type Mutation { m: Int }
 `
 
 var handRuleDocs = []string{
+	// null where a custom scalar is required (custom scalars take any literal, but null is no value of a non-null type)
+	`{ anyn(x: null) }`, `{ anyn(x: 1, l: [null]) }`, `{ anyn(x: 1, o: {from: null}) }`, `{ anyn(x: 1, l: [1, "a"], o: {from: {k: null}, to: null}) }`, `{ anyn }`, `query($v: Any) { anyn(x: $v) }`,
+	// oneOf input objects with an unknown key, null, both at once
+	`{ one(x: {zz: null}) }`, `{ one(x: {zz: 1}) }`, `{ one(x: {zz: null, a: 1}) }`, `{ one(x: {a: null, b: null}) }`, `{ one(x: null) }`, `query($v: One) { one(x: $v) }`,
+	// variables used by directives on the operation itself, on variable definitions, spreads and inline fragments
+	`query Q($v: Int) @opd(x: $v) { s }`, `query Q($v: Int) @opd(x: $v) { f(i: $v, nn: 1) }`, `query Q @opd(x: $nope) { s }`, `mutation M($b: Boolean) @opd(b: $b) { m }`,
+	`query Q($v: Int, $w: Int @opd(x: 1)) { ... @opd(x: $v) { s } ...FV2 @opd(x: $w) } fragment FV2 on Query { s }`,
+	// several different directives, each used twice at one location (each duplicate is one error, in document order)
+	`{ s @tag @note @mark @tag @note @mark }`, `{ s @mark @tag @tag @note @mark @note @once @once }`,
 	// several operations sharing a fragment that uses variables: every operation is judged on its own
 	`query A($v: Int) { ...FV } query B { ...FV } fragment FV on Query { f(i: $v, nn: 1) }`, `query B { ...FV } query A($v: Int) { ...FV } fragment FV on Query { f(i: $v, nn: 1) }`,
 	`query A($v: Int) { ...FV } query B($w: Int) { ...FV f(i: $w, nn: 2) } fragment FV on Query { f(i: $v, nn: 1) }`, `query A($v: Int) { ...FV } query B($v: Int) { ...FV } fragment FV on Query { f(i: $v, nn: 1) }`,
